@@ -167,5 +167,42 @@ func Analyse(x interface{}) Row {
 			}
 		}()
 	}
+	// one slot at a time, with the successor list already computed once (a cached list must not survive ANY single retargeting)
+	if _, ok := inst.Interface().(succer); ok && len(row.Succs) > 0 && row.Succs[0] != "panic" {
+		for k := range row.Succs {
+			func() {
+				defer func() {
+					if e := recover(); e != nil {
+						row.SuccLive = false
+					}
+				}()
+				inst2 := reflect.New(t)
+				var slots2 []slot
+				n2 := 0
+				fill(inst2.Elem(), "", &slots2, &n2)
+				sc2 := inst2.Interface().(succer)
+				_ = sc2.Succs()
+				for _, s2 := range slots2 {
+					if s2.path == row.Succs[k] {
+						s2.v.Set(reflect.ValueOf(ir.NewBlock(fmt.Sprintf("x%d", k))))
+					}
+				}
+				got := sc2.Succs()
+				if len(got) != len(row.Succs) {
+					row.SuccLive = false
+					return
+				}
+				for j, b := range got {
+					for _, s2 := range slots2 {
+						if s2.path == row.Succs[j] {
+							if cur, ok := s2.v.Interface().(*ir.Block); !ok || cur != b {
+								row.SuccLive = false
+							}
+						}
+					}
+				}
+			}()
+		}
+	}
 	return row
 }
